@@ -20,7 +20,7 @@ type curveEntryRunC18 struct {
 
 func main() {
 	r := vlib.Start("C18", "model_checking")
-	r.Rule("H (7 pairing curves, one fresh worker process each): ~25 exported computations \u2014 Pair, PairingCheck, Pair / MillerLoop with a point at infinity first / in the middle, PairFixedQ and MillerLoopFixedQ on shared precomputed lines, MultiExp G1/G2, batch scalar multiplication, batch Jacobian-to-affine, subgroup tests, scalar multiplication, kzg Commit / Open / Verify (true and false) / BatchVerifyMultiPoints on one SRS, FFT / inverse coset FFT on one domain, NewDomain, MiMC, hash-to-curve, Encoder, and the getters of lazily initialised or cached state whose results are then scribbled on (Modulus, ScalarField, GetEdwardsCurve, InterpolateOnRange, MultiLin.Evaluate with a pool) \u2014 are run in every history of length <= 2 (thorough 3) on ONE set of argument objects; every call must return its result on fresh objects and leave the deep snapshot of all shared arguments unchanged. S (bn254): 2 and 3 concurrent callers of the sync.Once-initialised Edwards parameters and MiMC constants, the sync.Map Lagrange-basis cache, the pooled big.Int of negative-exponent Exp (field and GT) and per-caller polynomial pools, all interleavings at every sync operation (unbounded for 2 callers, deviation bound 2 for 3; MiMC bound 1), every caller must obtain the sequential result. Race pass: first use of the lazy globals by 16 goroutines, then 2 / 8 / 64 goroutines running 20 operations on the same read-only objects (bn254 + koalabear SIS / Poseidon2) under GOMAXPROCS 1,2,3,8,16, built with -race, results compared with the sequential ones. non-trivial = groups")
+	r.Rule("H (7 pairing curves, one fresh worker process each): ~25 exported computations \u2014 Pair, PairingCheck, Pair / MillerLoop with a point at infinity first / in the middle, PairFixedQ and MillerLoopFixedQ on shared precomputed lines, MultiExp G1/G2, batch scalar multiplication, batch Jacobian-to-affine, subgroup tests, scalar multiplication, kzg Commit / Open / Verify (true and false) / BatchVerifyMultiPoints on one SRS, FFT / inverse coset FFT on one domain, NewDomain, MiMC, hash-to-curve, Encoder, and the getters of lazily initialised or cached state whose results are then scribbled on (Modulus, ScalarField, GetEdwardsCurve, InterpolateOnRange, MultiLin.Evaluate with a pool) \u2014 are run in every history of length <= 2 (thorough 3) on ONE set of argument objects; every call must return its result on fresh objects and leave the deep snapshot of all shared arguments unchanged. Cold starts (96 worker processes per curve): every operation once as the first computation of a fresh process vs. after all operations. S (bn254): 2 and 3 concurrent callers of the sync.Once-initialised Edwards parameters and MiMC constants, the sync.Map Lagrange-basis cache, the pooled big.Int of negative-exponent Exp (field and GT) and per-caller polynomial pools, all interleavings at every sync operation (unbounded for 2 callers, deviation bound 2 for 3; MiMC bound 1), every caller must obtain the sequential result. Race pass: first use of the lazy globals by 16 goroutines, then 2 / 8 / 64 goroutines running 20 operations on the same read-only objects (bn254 + koalabear SIS / Poseidon2) under GOMAXPROCS 1,2,3,8,16, built with -race, results compared with the sequential ones. non-trivial = groups")
 	r.Assume("cooperative scheduler is sequentially consistent; unsynchronised accesses are the race pass's job; polynomial.Pool is documented as not thread safe")
 	var names []string
 	bodies := map[string]func(){}
